@@ -1615,6 +1615,9 @@ func (x *Exec) convert(st *State, v Value, from, to types.Type, pos token.Pos) V
 		}
 		x.declareI2F()
 		return TV{App("i2f", SF64, tv.T), to}
+	case fs.IsBV() && ts.IsFP():
+		// unsigned machine integer to float: correctly rounded by SMT-LIB's to_fp_unsigned
+		return TV{App("(_ to_fp_unsigned "+strings.TrimSuffix(strings.TrimPrefix(string(ts), "(_ FloatingPoint "), ")")+")", ts, Atom("RNE", "RoundingMode"), tv.T), to}
 	case fs.IsFP() && ts == SInt:
 		x.declareFun("f2i", "(declare-fun f2i ((_ FloatingPoint 11 53)) Int)")
 		t := App("f2i", SInt, tv.T)
@@ -1862,7 +1865,11 @@ func (x *Exec) declareI2F() {
 	n := Atom("n!i2f", SInt)
 	app := App("i2f", SF64, n)
 	x.axioms = append(x.axioms, &Term{Op: "forall", Sort: SBool, Bound: []*Term{n}, Args: []*Term{And(Not(App("fp.isNaN", SBool, app)), Not(App("fp.isInfinite", SBool, app)))}, Pats: []*Term{app}})
-	x.assumeNote("float64(integer) is an uninterpreted, NaN-free, finite function of the integer (Go rounds it correctly; not modelled)")
+	// exact on the small integers that programs convert routinely (counts, exponents)
+	for k := int64(-2); k <= 16; k++ {
+		x.axioms = append(x.axioms, Eq(App("i2f", SF64, IntLit(k)), fpLit(float64(k))))
+	}
+	x.assumeNote("float64(integer) is an uninterpreted, NaN-free, finite function of the integer, exact on -2..16 (Go rounds it correctly; not modelled beyond that)")
 }
 
 // compactHeaps names every heap state that has grown into a large term:
